@@ -1,14 +1,29 @@
 #!/bin/bash
-# tools/seedrun.sh <seeded/dir> <tier> <check ids...>: applies the seeded change to /repo, runs the checks, undoes it.
-# Prints one line per check: <seed> <check> exit=<rc> [first VIOLATION line]
+# tools/seedrun.sh <seeded/dir> <tier> <check ids...>
+# Tries a seeded change WITHOUT touching /repo: a private copy of the repository's working tree gets
+# the patch, the overlay and the harness are built against that copy (go build -modfile), and the
+# run writes evidence and replays to a private directory (VERIF_OUT). Safe to run while other checks
+# run. Prints one line per check: <seed> <check> exit=<rc> [first VIOLATION line]
 D=$1; T=$2; shift 2
+export GOFLAGS=-mod=mod GOPROXY=off GOSUMDB=off GOTOOLCHAIN=local
+name=$(basename $D)
+W=/tmp/seedrun/$name.$$
+rm -rf $W; mkdir -p $W/repo $W/out/build/tmp
+trap 'rm -rf $W' EXIT
+rsync -a --exclude out --exclude .git /repo/ $W/repo/
+( cd $W/repo && git init -q . 2>/dev/null; git apply --unsafe-paths /verif/$D/patch.diff 2>/dev/null || patch -p1 -s < /verif/$D/patch.diff ) || { echo "$name APPLY-FAILED"; exit 2; }
 cd /verif
-if ! git -C /repo diff --quiet; then echo "refusing: /repo has uncommitted changes" >&2; exit 2; fi
-git -C /repo apply /verif/$D/patch.diff || { echo "$(basename $D) APPLY-FAILED"; exit 2; }
-trap 'git -C /repo checkout -- . ' EXIT
+[ -x build/instrument ] || go build -o build/instrument ./tools/instrument
+./build/instrument -repo $W/repo -verif /verif -out $W/overlay >/dev/null || { echo "$name INSTRUMENT-FAILED"; exit 2; }
+sed "s|=> /repo|=> $W/repo|" go.mod > $W/go.mod; cp go.sum $W/go.sum
+go build -modfile=$W/go.mod -overlay $W/overlay/overlay.json -o $W/mc ./cmd/mc || { echo "$name BUILD-FAILED"; exit 2; }
 for id in "$@"; do
-  out=$(./check $id --tier $T 2>&1); rc=$?
+  if [ "$id" = "C16" ]; then
+    go build -race -modfile=$W/go.mod -overlay $W/overlay/overlay.json -o $W/mc-race ./cmd/mc || { echo "$name RACE-BUILD-FAILED"; exit 2; }
+  fi
+  out=$(VERIF_OUT=$W/out VERIF_MC_RACE=$W/mc-race $W/mc $id --tier $T 2>&1); rc=$?
   v=$(echo "$out" | grep -A1 '^VIOLATION' | head -2 | tr '\n' ' ' | cut -c1-400)
   [ $rc -ne 0 ] && [ $rc -ne 1 ] && v="$(echo "$out" | tail -3 | tr '\n' ' ' | cut -c1-300)"
-  echo "$(basename $D) $id exit=$rc $v"
+  echo "$name $id exit=$rc $v"
+  mkdir -p /verif/seeded/$name/replays; cp $W/out/replays/$id-*.json /verif/seeded/$name/replays/ 2>/dev/null
 done
